@@ -69,6 +69,11 @@ def normal_forms(ck, fb, fn):
 
 
 def run(ck, fb):
+    _run0(ck, fb)
+    r07f(ck, fb)
+
+
+def _run0(ck, fb):
     ck.explanation = (
         'Decides that the three hand-written copies of the state-machine dispatch (leader apply_log_to_state_machine, follower '
         'do_send_log, start-up load_log) are the same function of the request: for each of the ClientRequest variants (all covered, no '
@@ -170,3 +175,32 @@ def run(ck, fb):
     if e:
         sd = util.sends(e, r'StateApplyAsyncRequest$', 'ApplyRequest')
         ck.require(len(sd) >= 1 and all(util.awaited(e, _x[0]) for _x in sd), 'R07e', 'apply_entry_to_state_machine:ApplyRequest', e.where(), 'request not sent')
+
+
+def r07f(ck, fb):
+    ck.rule('R07f', 'the index stamped on a snapshot covers everything the snapshot can contain: Handler<StateApplyAsyncRequest> answers with a '
+                    'concurrently polled future, and BuildSnapshot captures self.last_applied_log synchronously; the ApplyRequest arm must therefore '
+                    'advance last_applied_log synchronously too (in the handler body, before its future exists), never in the future\'s continuation. '
+                    'Otherwise a snapshot requested while entry N is in flight is stamped N-1 although the components already hold N, and a restart '
+                    'or an installing follower applies N twice (non-idempotent: NextId, Incr, history-adding publishes)')
+    hs = [b for b in fb.find(r'StateApplyManager as actix::Handler<rnacos::raft::filestore::raftapply::StateApplyAsyncRequest>>::handle$')]
+    if not hs:
+        ck.bad('R07f', 'anchor:async-handler', '-', 'Handler<StateApplyAsyncRequest>::handle not found')
+        return
+    h = hs[0]
+    ck.analysed(h)
+    ws = [(bb, st) for (o, f, bb, st) in h.field_writes() if f == 'last_applied_log']
+    sync_ok = False
+    for (bb, st) in ws:
+        if any(a[0] == 'variant' and a[2] == 'ApplyRequest' for a in cfg.guard_atoms(h, bb)):
+            sync_ok = True
+    late = []
+    for c in fb.tree(h.name)[1:]:
+        for (o, f, bb, st) in c.field_writes():
+            if f == 'last_applied_log':
+                late.append(c.where(bb))
+    ck.require(sync_ok, 'R07f', 'async-handler:advances-last-applied-synchronously', h.where(),
+               'the ApplyRequest arm does not advance last_applied_log in the handler body')
+    ck.require(not late, 'R07f', 'async-handler:no-late-advance', late[0] if late else h.where(),
+               'last_applied_log is advanced in the continuation of the apply future: a BuildSnapshot accepted in between reads the old value as the '
+               'snapshot\'s last index')
